@@ -92,6 +92,41 @@ def canon_outcome(o: Any) -> Any:
     return o
 
 
+def skeleton(j: Any) -> Any:
+    """the numbers of a loaded object / of the standard reading: every int field, every count (set-valued
+    fields de-duplicated and sorted, bundles sorted); texts and the timestamp (finding F13) left out"""
+    if not isinstance(j, dict) or "bundles" not in j:
+        return None
+
+    def nums(d: dict[str, Any]) -> dict[str, Any]:
+        return {k: v for k, v in d.items() if isinstance(v, int) and not isinstance(v, bool)}
+
+    def uniq(xs: list[Any]) -> list[Any]:
+        out: list[Any] = []
+        for x in _sorted(xs):
+            if not out or out[-1] != x:
+                out.append(x)
+        return out
+
+    out: dict[str, Any] = {"serial": j.get("serial")}
+    for p in ("zskPolicy", "kskPolicy"):
+        if p in j:
+            out[p] = dict(nums(j[p]), algorithms=uniq([{k: v for k, v in a.items() if k != "kind"} for a in j[p]["algorithms"]]))
+    out["bundles"] = _sorted(
+        [
+            {
+                "inception": b["inception"],
+                "expiration": b["expiration"],
+                "keys": uniq([nums(k) for k in b["keys"]]),
+                "signatures": uniq([nums(x) for x in b["signatures"]]),
+                "signers": None if b.get("signers") is None else len(set(b["signers"])),
+            }
+            for b in j["bundles"]
+        ]
+    )
+    return out
+
+
 # --------------------------------------------------------------------------------------
 # the worker: runs implementation code under a soft alarm
 # --------------------------------------------------------------------------------------
@@ -426,6 +461,8 @@ def syntax_variants(base: str, kind: str) -> list[tuple[str, str]]:
     a(("missing-close-quote", sub1(base, r'(serial="[^"]*)"', r"\1")))
     a(("quote-in-value", sub1(base, r'id="', 'id="a"b')))
     a(("gt-in-value", sub1(base, r'id="', 'id="a>b')))
+    a(("end-tag-text-in-value", sub1(base, r'id="', 'id="</KSR>')))
+    a(("end-tag-text-in-bundle-id", sub1(base, rf'<{bundle} id="', f'<{bundle} id="</{bundle}>')))
     a(("lt-in-value", sub1(base, r'id="', 'id="a<b')))
     a(("newline-in-tag", sub1(base, r"<KSR ", "<KSR\n")))
     a(("newline-between-attrs", sub1(base, r'" serial', '"\nserial')))
@@ -489,7 +526,7 @@ def syntax_variants(base: str, kind: str) -> list[tuple[str, str]]:
             a(("keytag-" + name, sub1(base, r'keyTag="[^"]*"', f'keyTag="{t}"') if t else base))
             a(("flags-" + name, sub1(base, r"<Flags>[^<]*<", f"<Flags>{t}<")))
             a(("size-" + name, sub1(base, r'size="[^"]*"', f'size="{t}"') if t else base))
-    for f in (0, 1, 255, 258, 384, 65535, 65536, 257, 385):
+    for f in (0, 1, 255, 258, 384, 65535, 65536, 257, 385, 65536 + 256, 65536 + 257, 2**32 + 256, -65280):
         a((f"flags-{f}", sub1(base, r"<Flags>[^<]*<", f"<Flags>{f}<")))
     for p in (0, 2, 4, 256, -3):
         a((f"protocol-{p}", sub1(base, r"<Protocol>[^<]*<", f"<Protocol>{p}<")))
@@ -725,6 +762,7 @@ def tiny_strings(r: Any, n: int) -> list[str]:
     """short strings over the adversarial alphabet, biased towards almost-well-formed elements"""
     names = ["a", "b", "KSR", "a_1", "\xe9"]
     vals = ["", "x", " y ", "1", "<", ">", "/"]
+    avals = ['i="v"', "i='v'", 'i=""', "i", 'j="a b"', 'i="1" j="2"', 'i="1"j="2"', "/", '"', 'i="x" ', 'i="</a>"', 'i="<a>"', 'i="</b>" j="<b "']
     out = []
     for _ in range(n):
         mode = r.randrange(10)
@@ -732,7 +770,7 @@ def tiny_strings(r: Any, n: int) -> list[str]:
             parts = []
             for _k in range(r.randrange(1, 5)):
                 nm = r.choice(names)
-                attrs = "".join(r.choice([" ", "  ", "\t", "\n", ""]) + r.choice(['i="v"', "i='v'", 'i=""', "i", 'j="a b"', 'i="1" j="2"', 'i="1"j="2"', "/", '"', 'i="x" ']) for _j in range(r.choice([0, 0, 1, 1, 2])))
+                attrs = "".join(r.choice([" ", "  ", "\t", "\n", ""]) + r.choice(avals) for _j in range(r.choice([0, 0, 1, 1, 2])))
                 form = r.randrange(8)
                 if form == 0:
                     parts.append(f"<{nm}{attrs}/>")
@@ -777,6 +815,7 @@ def size_shapes(tier: str) -> list[tuple[str, str, bytes, int | None]]:
         ("lt-64k", "load_ksr", b"<KSR>" + b"<" * k64, None),
         ("open-tags-64k", "load_ksr", b"<KSR>" + b"<a>" * (k64 // 3), None),
         ("nested-64k", "load_ksr", b"<KSR>" + b"<a>" * 8000 + b"x" + b"</a>" * 8000 + b"</KSR>", None),
+        ("nested-distinct-names-1500", "load_ksr", b"<KSR>" + b"".join(b"<n%d>" % i for i in range(1500)) + b"x" + b"".join(b"</n%d>" % i for i in reversed(range(1500))) + b"</KSR>", None),
         ("siblings-64k", "load_ksr", b"<KSR>" + b"<a>1</a>" * (k64 // 8) + b"</KSR>", None),
         ("attrs-64k", "load_ksr", b"<KSR " + b'a="1" ' * (k64 // 6) + b"></KSR>", None),
         ("distinct-attrs-2k", "load_ksr", b"<KSR " + b" ".join(b'a%d="1"' % i for i in range(2000)) + b"></KSR>", None),
@@ -852,6 +891,15 @@ def run(tier: str, driver_ok: bool) -> Result:
     arch = archived()
     loader = {"request": "request_from_xml", "response": "response_from_xml"}
 
+    # 0. corpus: minimised past failures / recorded findings, run first
+    for f in sorted((VERIF / "corpus").glob("C13_*.json")):
+        for e in json.loads(f.read_text()):
+            if "text_spec" in e:
+                sp = e["text_spec"]
+                text = sp["prefix"] + sp["repeat"] * sp["count"]
+            else:
+                text = e["text"]
+            add("corpus", e.get("key", f.name), e["kind"], text)
     # 1. syntax variants
     for kind in ("request", "response"):
         for bname, base in gen[kind][:3]:
@@ -1086,6 +1134,19 @@ def run(tier: str, driver_ok: bool) -> Result:
             return
         if isinstance(impl, dict) and "ok" in impl:
             res.bump("impl:object")
+            # "never a partially parsed object": where a standard parser can read the document as the schema
+            # lays it out, the numbers and counts of the returned object are the document's
+            if c["kind"] != "parse" and c["kind"] != "parse_attrs" and len(text_for_key) < 100000:
+                import corr_C12
+
+                try:
+                    std = skeleton(corr_C12.et_extract(text_for_key))
+                except Exception:  # noqa: BLE001  (not well-formed / not laid out as the schema says: no verdict)
+                    std = None
+                if std is not None:
+                    res.bump("object-vs-standard-reading:compared")
+                    if skeleton(impl["ok"]) != std:
+                        res.violation("returned object does not carry the numbers and counts of the document", key_case, key="object-differs-from-document", impl=_short(skeleton(impl["ok"])), expected=_short(std))
             if c["kind"] in ("load_ksr", "load_skr"):
                 if o.get("revalidates") is not True:
                     res.violation("load returned an object that does not validate under the same policy", key_case, key="not-validated", revalidate_error=o.get("revalidate_error"))
